@@ -351,7 +351,8 @@ def main():
     corpus = [
         # a sub-selection (hidden child) moved to another place, then the receiving tree copied / selected again
         [("set", 0, [], "S", "s"), ("set", 0, ["s"], "B", "a"), ("set", 0, ["s"], "B", "b c"), ("set", 0, [], "S", "t"),
-         ("select", 0, ["s"], ["a"]), ("move", 0, ["t"], 2), ("copy", 0, []), ("select", 0, ["t"], ["s"]), ("copy", 0, ["t", "s"])],
+         ("select", 0, ["s"], ["a"]), ("move", 0, ["t"], 2), ("copy", 0, []), ("select", 0, ["t"], ["s"]), ("copy", 0, ["t", "s"]),
+         ("select", 3, ["t", "s"], ["b c", "a"]), ("select", 0, ["t", "s"], ["b c"])],
         [("set", 1, [], "S", "x y"), ("set", 1, ["x y"], "B", "v[1]"), ("set", 1, ["x y"], "B", "w"), ("select", 1, ["x y"], ["w"]),
          ("set", 0, [], "S", "deep"), ("set", 0, ["deep"], "S", "er"), ("move", 0, ["deep", "er"], 2), ("copy", 0, ["deep"]),
          ("copy", 3, [])],
